@@ -196,6 +196,14 @@ class ContractMixin:
     # ------------------------------------------------------------------
     def apply_contract(self, st, c, args, kw, node, self_sv=None):
         self.used_contracts.add(c.qualname)
+        if st.init_assigned is not None and c.qualname.endswith('.__init__') and self_sv is not None \
+                and 'self' in st.env and isinstance(st.env['self'], SV) and z3.eq(st.env['self'].t, self_sv.t):
+            # a base-class constructor (under its own contract) assigns the fields of its classes
+            base = c.qualname[:-len('.__init__')]
+            for q in self.classes.mro(base):
+                m = api.MODELS.get(q)
+                if m is not None:
+                    st.init_assigned.update(m.fields)
         env = self.bind_args(st, c, args, kw, node, self_sv)
         # preconditions
         for cl in c.requires:
